@@ -17,14 +17,19 @@ from ..tlaval import Rec
 
 H = lambda n, *parts: (n, tuple(parts))  # noqa
 
+NOFAIL = 99
 ABSTRACT = [
-    Rec(status=200, headers=(), body=()),
-    Rec(status=200, headers=(H("content-type", "text/plain"),), body=("a",)),
-    Rec(status=404, headers=(H("x-a", "1"), H("content-length", "2")), body=("a", "b")),
-    Rec(status=799, headers=(H("set-cookie", "c1=1; path=/"), H("set-cookie", "c2=2; path=/")), body=("a",)),
-    Rec(status=200, headers=(H("x-a", "1"), H("set-cookie", "c1=1; path=/"), H("x-mw", "inner"), H("set-cookie", "c2=2; path=/")), body=("a", "b", "c")),
-    Rec(status=204, headers=(H("x-a", "1, 2"),), body=()),
-    Rec(status=200, headers=(H("x-dup", "1"), H("x-dup", "2")), body=("a",)),     # repeated plain header (known finding: folded)
+    Rec(status=200, headers=(), body=(), fail=NOFAIL),
+    Rec(status=200, headers=(H("content-type", "text/plain"),), body=("a",), fail=NOFAIL),
+    Rec(status=404, headers=(H("x-a", "1"), H("content-length", "2")), body=("a", "b"), fail=NOFAIL),
+    Rec(status=799, headers=(H("set-cookie", "c1=1; path=/"), H("set-cookie", "c2=2; path=/")), body=("a",), fail=NOFAIL),
+    Rec(status=200, headers=(H("x-a", "1"), H("set-cookie", "c1=1; path=/"), H("x-mw", "inner"), H("set-cookie", "c2=2; path=/")), body=("a", "b", "c"), fail=NOFAIL),
+    Rec(status=204, headers=(H("x-a", "1, 2"),), body=(), fail=NOFAIL),
+    Rec(status=200, headers=(H("x-dup", "1"), H("x-dup", "2")), body=("a",), fail=NOFAIL),     # repeated plain header (known finding: folded)
+    # the body producer raises after 0 / 1 / 2 chunks (model level only: LateErrorSame; the real streams are driven further below)
+    Rec(status=200, headers=(H("x-s", "1"),), body=("a", "c"), fail=0),
+    Rec(status=200, headers=(H("x-s", "1"),), body=("a", "c"), fail=1),
+    Rec(status=200, headers=(H("x-s", "1"),), body=("a", "c"), fail=2),
 ]
 CHUNK = {"a": b"alpha-", "b": b"", "c": b"\xff\x00gamma"}
 
@@ -95,7 +100,7 @@ def observe(iface, app, req=None, zerocopy=False):
 
 def run(ctx):
     depth = 2 if ctx.tier == "quick" else 3
-    K = dict(Recipes=frozenset(ABSTRACT), MaxDepth=depth, FoldAll=False)
+    K = dict(Recipes=frozenset(ABSTRACT), MaxDepth=depth, FoldAll=False, Lazy=True)
     ctx.bounds = {"abstract_recipes": len(ABSTRACT), "MaxDepth": depth}
     ctx.rule = ("every (abstract recipe, layer stack) behaviour of Middleware.tla on real middleware stacks (WSGI and ASGI, raw inner "
                 "apps returning lists / iterators / several body messages) plus every response recipe bare vs wrapped; non-trivial = "
@@ -104,7 +109,7 @@ def run(ctx):
                        "header comparison is a multiset comparison of (lower-case name, value)"]
     wd = tlc.workdir_for("c20")
     tlc.sany(wd + "/Middleware.tla")
-    cfg = ["SPECIFICATION Spec", "CHECK_DEADLOCK FALSE", "INVARIANT Transparent", "INVARIANT OnlyThatHeader", "INVARIANT InnerOnce"]
+    cfg = ["SPECIFICATION Spec", "CHECK_DEADLOCK FALSE", "INVARIANT Transparent", "INVARIANT OnlyThatHeader", "INVARIANT InnerOnce", "INVARIANT LateErrorSame"]
     tlc.write_mc(wd, "MC_Middleware", "Middleware", constants=K, cfg_lines=cfg)
     res = tlc.run_tlc(wd, "MC_Middleware", dump=True)
     ctx.add_tlc("Middleware", res, ctx.bounds)
@@ -117,11 +122,20 @@ def run(ctx):
     if wres.violated != "Transparent":
         raise common.MachineryError("witness failed: FoldAll=TRUE does not violate Transparent (%s)" % wres.violated)
     ctx.notes.append("witness: folding Set-Cookie lines (FoldAll=TRUE) violates Transparent after %d states" % wres.distinct)
+    # the ASGI capture buffers the inner response (Lazy=FALSE): in the model that breaks LateErrorSame - known finding 2, see the late-error runs below
+    tlc.write_mc(wd, "MC_MiddlewareBuffered", "Middleware", constants=dict(K, Lazy=False),
+                 cfg_lines=["SPECIFICATION Spec", "CHECK_DEADLOCK FALSE", "INVARIANT LateErrorSame"])
+    bres = tlc.run_tlc(wd, "MC_MiddlewareBuffered", coverage=False)
+    if bres.violated != "LateErrorSame":
+        raise common.MachineryError("Middleware.tla with Lazy=FALSE does not violate LateErrorSame (%s)" % bres.violated)
+    ctx.notes.append("model of the buffering ASGI capture (Lazy=FALSE) violates LateErrorSame: the known finding, as the model predicts it")
     g = graph.Graph.load(res.dot)
     n = 0
     for nid in g.terminal():
         st = g.state(nid)
         r, stack = st["recipe"], list(st["stack"])
+        if r["fail"] != NOFAIL:
+            continue       # failing producers are driven on real streams below (late-error runs)
         n += 1
         want_headers = sorted((h[0], ", ".join(h[1])) for h in st["cur"]["headers"])
         want = {"status": st["cur"]["status"], "headers": want_headers, "body": b"".join(CHUNK[c] for c in st["cur"]["body"]), "exc": None}
